@@ -276,7 +276,7 @@ func execBin(bin string, args []string, scratch string) int {
 	cmd.Dir = verif
 	cmd.Stdout = os.Stdout
 	cmd.Stderr = os.Stderr
-	cmd.Env = append(goEnv(), "VERIF_SCRATCH="+scratch)
+	cmd.Env = append(goEnv(), "VERIF_SCRATCH="+scratch, "VERIF_REPO_PATH="+repo)
 	if err := cmd.Run(); err != nil {
 		if ee, ok := err.(*exec.ExitError); ok {
 			return ee.ExitCode()
